@@ -1,6 +1,7 @@
 """C18 -- topic filter validation and matching follow MQTT section 4.7."""
 import itertools
 
+from props import inbound_common as IB
 from props.base import Part, bstr
 
 RULE = ("exhaustive (filter, second string) pairs over the alphabet {a,b,$,/,+,#} up to the stated lengths, "
@@ -78,19 +79,32 @@ def parts(tier, rng):
         f = rand_str(rng)
         t = rand_str(rng) if rng.random() < 0.5 else f.replace("+", rng.choice(["a", "$", "é"])).replace("#", "b/c")
         rnd.append(enc(f) + ";" + enc(t))
-    return [
+    res = [
         TopicPart("exhaustive", "topic", cases,
                   rule="corpus + all %d filters of length <= %d x all %d strings of length <= %d" % (
                       len(F), fl, len(T), tl)),
         TopicPart("random-utf8", "topic", rnd, rule="random multi-byte levels, second string random or derived"),
     ]
+    # where the validator is used: SUBSCRIBE / UNSUBSCRIBE with well-formed, malformed and mixed filter lists
+    # against real v3/v5 servers (a malformed filter anywhere in the list ends the connection)
+    for p in IB.make_parts(tier, rng, ("C18",), clients=False):
+        keep = [c for c in p.cases if any(f.startswith("1,6,") or f.startswith("1,7,") for f in c.split(";")[1:])]
+        p.cases = keep[:6000 if tier == "quick" else 60000]
+        p.name = "dispatcher-filters-" + p.name
+        p.rule = "inbound sequences containing a SUBSCRIBE / UNSUBSCRIBE (filter templates 1..6)"
+        res.append(p)
+    return res
 
 
 def replay_parts(rp):
+    if rp.get("engine", "topic") != "topic":
+        return IB.replay_parts(rp, ("C18",))
     return [TopicPart("replay", rp.get("engine", "topic"), [rp["case"]])]
 
 
 def known_signature(part, case, impl_obs, oracle):
+    if isinstance(part, IB.InbPart):
+        return IB.known_signature(part, case, impl_obs, oracle)
     return None
 
 
@@ -105,5 +119,7 @@ CLAUSES = {
 
 
 def clause_text(part, oracle):
+    if isinstance(part, IB.InbPart):
+        return IB.clause_text(part, oracle)
     f = oracle.split(";")[0].split(",")
     return CLAUSES.get(f[1] if len(f) > 1 else "", "oracle verdict " + oracle)
